@@ -160,18 +160,33 @@ def run(ctx):
     # ---------------- C19.c
     snap = one_method(chk, "C19.c", u, f"{DBG}::Snapshotter", "snapshot")
     if snap:
-        b = snap.body
-        sy = Sym(snap)
+        from props.common import enum_switches
+
+        # the per-entry body: snapshot() itself (for loop) or the closure it hands to filter_map/map (iterator chain)
+        B = next((g for g in snap.region() if enum_switches(g, "kind::MetricKind")), snap)
+        chain_form = B is not snap
+        b = B.body
+        sy = Sym(B)
         # iteration source
         its = [c for c in nonforeign_calls(snap) if c.fn is snap and c.is_("IntoIterator::into_iter")]
         src_ok = False
         for c in its:
             s = sym_str(arg_syms(c)[0])
-            if "seen" in s and "clone" in s.lower() and not any(x in s for x in ("sort", "rev(", "sorted")):
+            if f"{seen_f}" in s and "clone" in s.lower() and not any(x in s for x in ("sort", "rev(", "sorted")):
                 src_ok = True
+        if chain_form:
+            # seen.into_iter().filter_map(<B>).collect(): same order, nothing but the per-entry closure in between
+            src_ok = False
+            for c in nonforeign_calls(snap):
+                if c.fn is snap and c.is_("Iterator::filter_map", "Iterator::map", "Iterator::flat_map"):
+                    a_ = arg_syms(c)
+                    cl_ = strip_sym(a_[1])
+                    if cl_[0] == "agg" and cl_[1] == "closure" and cl_[5] == B.path:
+                        s = sym_str(a_[0])
+                        src_ok = f"{seen_f}" in s and "clone" in s.lower() and not any(x in s for x in ("sort", "rev(", "skip(", "take(", "step_by("))
         sorts = [c for c in nonforeign_calls(snap) if callee_method_name(c).startswith("sort") or callee_method_name(c) in ("rev", "reverse")]
         chk.ob("C19.c", f"{snap.path} [order of first registration]", src_ok and not sorts, "iterates a clone of `seen` in insertion order" if src_ok and not sorts else "the snapshot does not list metrics in order of first registration", snap.loc())
-        arms = enum_arms(snap, "kind::MetricKind")
+        arms = enum_arms(B, "kind::MetricKind")
         want = {"Counter": "get_counter_handles", "Gauge": "get_gauge_handles", "Histogram": "get_histogram_handles"}
         if arms is None:
             chk.unrecognised("C19.c", f"{snap.path} [kind arms]", "no match on the entry's kind", snap.loc())
@@ -198,11 +213,15 @@ def run(ctx):
                 ok = len(adds) >= 1 and not overwrite and not drops_old
                 detail = f"closure: adds={[callee_method_name(c) for c in adds]}, overwrites the accumulator={bool(overwrite or drops_old)}"
         chk.ob("C19.c", f"{snap.path} [histogram drain accumulates]", ok, "clear_with(|xs| values.extend(..)): every drained block is appended" if ok else f"drained histogram blocks are not all kept ({detail}): clear_with calls the closure once per 64-value block, so overwriting keeps only the last block and the other values appear in no snapshot", snap.loc())
-        pushes = [c for c in nonforeign_calls(snap) if c.fn is snap and c.is_("Vec<T, A>::push")]
-        ok = len(pushes) == 1 and any(lab == "Some" for dd, lab in gates(b, pushes[0].bb)) and in_cycle(b, pushes[0].bb)
+        pushes = [c for c in nonforeign_calls(snap) if c.fn is B and c.is_("Vec<T, A>::push")]
+        ok = len(pushes) == 1 and any(lab == "Some" for dd, lab in gates(b, pushes[0].bb, up=False)) and in_cycle(b, pushes[0].bb)
+        if chain_form:
+            # filter_map keeps an entry only when the closure returns Some: the closure's result is the looked-up value mapped
+            ret_ = strip_sym(sy.local(0))
+            ok = any(c.fn is snap and c.is_("Iterator::filter_map") for c in nonforeign_calls(snap)) and sym_is_call(ret_, "Option<T>::map", "Option<T>::and_then", "Option<T>::zip") and "get(" in sym_str(ret_)
         chk.ob("C19.c", f"{snap.path} [only metrics with a value]", ok, "an entry is emitted only when its kind's map has a value (described-only names are skipped)" if ok else "snapshot entries are not conditional on a value existing", snap.loc())
         # the key under which the description table is read
-        mg = [c for c in nonforeign_calls(snap) if c.fn is snap and "indexmap" in (c.resolved or "") and callee_method_name(c) in ("get", "get_full", "get_key_value") and "CompositeKeyName" in repr(c.t.get("gargs")) + (c.resolved or "") + repr(arg_syms(c)[1])]
+        mg = [c for c in nonforeign_calls(snap) if c.fn is B and "indexmap" in (c.resolved or "") and callee_method_name(c) in ("get", "get_full", "get_key_value") and "CompositeKeyName" in repr(c.t.get("gargs")) + (c.resolved or "") + repr(arg_syms(c)[1])]
         ok = False
         for c in mg:
             ca = ctor_args(sym_through(arg_syms(c)[1]), "CompositeKeyName")
